@@ -11,6 +11,7 @@ import (
 	"strings"
 	"time"
 
+	"verifharness/astacc"
 	. "verifharness/common"
 )
 
@@ -63,7 +64,7 @@ func raceReports(glob string) (reports []string, total int) {
 func runMain() {
 	hdir := flag.String("harnessdir", "/verif/harness", "directory of the harness module")
 	o := ParseOpts()
-	acc, err := collect("/repo")
+	acc, err := astacc.Collect("/repo")
 	if err != nil {
 		fmt.Fprintln(os.Stderr, "cannot parse /repo:", err)
 		os.Exit(3)
@@ -129,7 +130,7 @@ func runMain() {
 	extra["race_detector_scenarios"] = scenarios
 	// --- the access table, one case per access ---
 	var cases []Case
-	sort.Slice(acc, func(i, j int) bool { return coqAcc(acc[i]) < coqAcc(acc[j]) })
+	sort.Slice(acc, func(i, j int) bool { return astacc.CoqAcc(acc[i]) < astacc.CoqAcc(acc[j]) })
 	for _, a := range acc {
 		k := "unlocked"
 		switch {
@@ -141,9 +142,9 @@ func runMain() {
 			k = "locked"
 		}
 		dist[k]++
-		cases = append(cases, Case{Term: coqAcc(a), Desc: a, Nontrivial: !a.Sync, Tags: []string{k}})
+		cases = append(cases, Case{Term: astacc.CoqAcc(a), Desc: a, Nontrivial: !a.Sync, Tags: []string{k}})
 	}
-	Emit(o, "C16", "From Coq Require Import String List.\nImport ListNotations.\nFrom GoRes Require Import Run.Run_C16.\nOpen Scope string_scope.", "acc",
+	Emit(o, "C16", "From Coq Require Import String List NArith.\nImport ListNotations.\nFrom GoRes Require Import Run.Run_C16.\nOpen Scope string_scope.", "acc",
 		"one case per shared-field access site extracted by go/ast from service.go, worker.go, queryevent.go, resource.go, request.go, getrequest.go, mux.go (function, struct, field, read/write, under s.mu, atomic, self-synchronising); non-trivial = not an operation of a self-synchronising object; plus race-detector (-race) runs of the concurrent harnesses with handlers writing unsynchronised per-group scratch memory (counts in input_distribution/extra)",
 		cases, dist, extra, impl, 1000)
 }
